@@ -479,6 +479,15 @@ namespace chaiscript {
         t_holder.push_call_params();
       }
 
+      /// Adds a new scope to the stack. Temporaries made by type conversions for a call that is still
+      /// in progress stay with the scope they were made in, not with the new (shorter lived) one
+      void new_scope(Stack_Holder &t_holder, Type_Conversions::Conversion_Saves &t_saves) {
+        if (!t_saves.saves.empty()) {
+          save_function_params(t_holder, m_conversions.take_saves(t_saves));
+        }
+        new_scope(t_holder);
+      }
+
       /// Pops the current scope from the stack
       static void pop_scope(Stack_Holder &t_holder) {
         t_holder.call_params.pop_back();
